@@ -1,0 +1,29 @@
+//go:build verif
+
+package index
+
+// Contracts for the verification machinery in /verif (comment-only; see /verif/DESIGN.md).
+//
+// The InsertionIndex methods below are specified against the abstract view (byCid, byMh, byDg, nrec) and are
+// `trusted`: their bodies iterate a GoLLRB tree through callbacks and are not verified here.
+
+//@ func NewInsertionIndex
+//@   trusted
+//@   ensures fresh: freshobj(result) && nrec(result) == 0
+
+//@ func (*InsertionIndex).InsertNoReplace
+//@   trusted
+//@   modifies byCid(ii, key), byMh(ii, mhof(key)), byDg(ii, digestof(mhof(key))), nrec(ii)
+//@   ensures inserted: byCid(ii, key) && byMh(ii, mhof(key)) && byDg(ii, digestof(mhof(key))) && nrec(ii) == old(nrec(ii)) + 1
+
+//@ func (*InsertionIndex).HasExactCID
+//@   trusted
+//@   ensures def: err == nil && result0 == byCid(ii, c)
+
+//@ func (*InsertionIndex).HasMultihash
+//@   trusted
+//@   ensures def: err == nil && result0 == byMh(ii, bytesval(mh))
+
+//@ func (*InsertionIndex).Get
+//@   trusted
+//@   ensures def: (err == nil) == byDg(ii, digestof(mhof(c)))
